@@ -19,3 +19,35 @@ claim("C17", "Lock-ownership discipline proved on every path of every method of 
       "step from the discipline to linearizability is a stated meta-theorem, not a VC.",
       TB + "Meta-theorem (monitor/Lipton reduction) trusted; the schedule quantifier is not explored; timestamp order vs lock order unchecked.",
       "DESIGN.md C17", "lock-discipline contracts discharged per path + syntactic audit; meta-theorem for interleavings")
+RUN = ("The four retry loops are executed symbolically against one shared inductive loop invariant (any max_attempts), with "
+       "_handle_failure (relation HF), the sleep actions (relation SA), emit, elapsed and Budget.consume under contract; HF and SA "
+       "are proved against their real bodies for every ErrorClass, cause, configuration and callback behaviour. ")
+ENVN = ("User callbacks are arbitrary within A4 (any value of the declared type, any exception class); abort_if and attempt hooks "
+        "assumed non-raising at runner level; sleeper advances the monotonic clock by at least its argument. ")
+claim("C01", RUN + "C01's bounds are obligations at every operation invocation and in the loop invariant (ghost counters).", TB + ENVN, "DESIGN.md C01")
+claim("C02", RUN + "Deadline clauses are asserted at every invocation and sleeper call over a ghost monotonic clock; statements in true "
+      "seconds carry the library's 1 microsecond timedelta resolution (eps obligations).", TB + ENVN +
+      "timedelta(seconds=x) modelled as rounding with error <= 0.5us (monotone); the exact sub-microsecond reading is finding F6.", "DESIGN.md C02")
+claim("C03", RUN + "HF is a biconditional decision table (retry iff permitted; reported stop reason holds); no-waste clauses are "
+      "obligations at the sleeper, budget and retry-event sites.", TB + ENVN, "DESIGN.md C03")
+claim("C04", RUN + "Object identity of the returned value / raised exception / RetryExhaustedError fields against the ghost final-attempt record.",
+      TB + ENVN + "Traceback frames are not program state: not decided.", "DESIGN.md C04")
+claim("C05", RUN + "HF's retry branch pins the strategy identity, its context arguments and sanitise(); SA and the sleeper model pin that the same delay is slept and reported; "
+      "legacy signature adapter proved separately.", TB + ENVN + "inspect.signature behind an assumed contract.", "DESIGN.md C05")
+claim("C11", RUN + "Field-by-field postcondition of execute()'s RetryOutcome against the ghost final-failure record; raises clause restricted to cancellation, nested "
+      "RetryExhaustedError and callback-origin errors.", TB + ENVN, "DESIGN.md C11")
+claim("C13", RUN + "Ghost polled/aborted flags asserted at every invocation, handler and sleeper call; cancellation-type exceptions from the operation "
+      "leave no further environment interaction before the exit.", TB + ENVN, "DESIGN.md C13")
+claim("C14", RUN + "emit's call-site contract is a ghost event automaton (retry* then one terminal event) checked at every real emit site; exit "
+      "obligations tie the terminal event to the delivered stop reason and final failure; emit's body proved to feed both hooks identically.",
+      TB + ENVN + "Timeline collector/breaker events are covered by the policy-layer tasks where built.", "DESIGN.md C14")
+claim("C15", "Exception confinement and frame proved on the bodies of emit and _call_before_sleep[_async] (every hook outcome incl. raising), and every other "
+      "result is proved uniformly in the hooks' behaviour because callers only see those contracts.", TB + ENVN, "DESIGN.md C15")
+claim("C16", RUN + "SA is the sleep-handler protocol itself (SLEEP/DEFER/ABORT cases, exactly-once counters), proved on both sleep actions; runner exits tie DEFER/ABORT to delivery.",
+      TB + ENVN, "DESIGN.md C16")
+claim("C18", "Envelope postconditions on the real closures over an extended-real float model (NaN/inf/range) with symbolic parameters, attempt numbers and random draws; "
+      "_exp_cap's loop has an inductive invariant against the exact product.", TB + "A1 (rounding ignored); g**n uninterpreted with witnessed overflow thresholds and multiplicativity instances.", "DESIGN.md C18")
+claim("C19", "Totality and decision-table postconditions over a tagged 'any built-in value' sort for attributes, arbitrary exception class and class name; args loops with invariants.",
+      TB + "str()/lower()/regex behind assumed contracts; optional-library classifiers only with the library absent.", "DESIGN.md C19")
+claim("C20", "Totality and value postconditions of the Retry-After parser chain with assumed-and-witnessed stdlib contracts; honouring proved on retry_after_or.",
+      TB + "Header containers raise only Exception subclasses; hint + jitter within float range.", "DESIGN.md C20")
